@@ -76,6 +76,7 @@ func crashHistory(h *HistGen, n int) []J {
 func streamC05(c *Ctx) {
 	c.Rule = "(i) close/reopen after every prefix of random write histories on bbolt and badger-on-disk (in every other history some transactions are abandoned before or at their commit by an injected store fault and the history goes on with the same handle): logical state and raw key dump equal to the model's, invariant oracle on the reopened store; " +
 		"(ii) a child process executes a scripted history of batched inserts, bulk updates/deletes and index create/drop, acknowledging each returned operation on a pipe; the parent kills it (SIGKILL) at a uniformly random instant, reopens the directory and requires the raw dump to be the model's state after j operations for j in {acknowledged, acknowledged+1} and the invariant oracle to hold. " +
+		"(iii) a child process importing a file of 4300 documents (more than 4 MiB) is killed at a uniformly random instant of the import's measured duration: the reopened store holds nothing or everything of the collection. " +
 		"non-trivial = distinct (history, kill instant) where at least one operation had been acknowledged and the history was not finished"
 	dr := StartDriver(c.DriverBin)
 	defer dr.Close()
@@ -135,6 +136,12 @@ func streamC05(c *Ctx) {
 	// an operation too large for one backend transaction must be refused as a whole, also across reopen
 	for _, be := range []string{"bbolt", "badger-disk"} {
 		if !bigBatchNoTrace(c, be) {
+			return
+		}
+	}
+	// (iii) kill during one large import (more than 4 MiB): nothing or everything after reopening
+	for _, be := range []string{"bbolt", "badger-disk"} {
+		if !bigImportKills(c, be, c.N(5, 60), NewGen(c.Rng, dm)) {
 			return
 		}
 	}
